@@ -6,6 +6,7 @@ Property theorems only. The generator (`Xoro`) and `shuffle` are the transcripti
 import Bourse.Model.Rng
 import Bourse.Model.Env
 import Bourse.Lemmas.ShuffleBij
+import Bourse.Lemmas.Lemire
 import Mathlib.Data.List.Permutation
 import Mathlib.Data.Nat.Factorial.Basic
 
@@ -149,5 +150,45 @@ theorem shuffle_outcomes_are_all_permutations_once {α} [DecidableEq α] (l : Li
 orders, each once. -/
 example : ((validDraws 2).map (shuffleDraws 2 [10, 20, 30])) =
     [[20, 30, 10], [30, 20, 10], [30, 10, 20], [10, 30, 20], [20, 10, 30], [10, 20, 30]] := by decide
+
+/-! ### Each bounded draw is exactly uniform
+
+The shuffle draws its swap positions with `gen_index(i + 1)` = `gen_range(0..i+1)` for `u32`:
+Lemire's widening-multiply method with the rejection zone `(range << range.leading_zeros()) - 1`
+(`Xoro.accept`, transcribed from `rand 0.8.5`, and validated against the real crate on every run by
+exact schedule prediction). The rejection makes the result exactly — not approximately — uniform. -/
+
+/-- **No modulo bias.** Of the `2^32` possible `u32` draws, exactly `2^lz` (`lz` = leading zeros of
+`range`) are accepted with result `r`, the same number for every `r < range`; a draw never yields a
+result outside `0..range`. So a uniform `u32` gives, conditional on acceptance, a uniform position —
+which is the hypothesis of `shuffle_outcomes_are_all_permutations_once`. -/
+theorem bounded_draw_exactly_uniform (range : Nat) (h0 : 0 < range) (h1 : range < 4294967296) :
+    (∀ r, r < range →
+      ((Finset.range 4294967296).filter (fun v => Xoro.accept range v = some r)).card = 2 ^ Xoro.lz32 range) ∧
+    (∀ v r, v < 4294967296 → Xoro.accept range v = some r → r < range) :=
+  ⟨fun r hr => Xoro.accept_count range r h0 h1 hr, fun v r hv h => Xoro.accept_lt range v r h0 h1 hv h⟩
+
+/-- **The rejection loop terminates quickly.** At least `2^31` of the `2^32` draws are accepted, so
+each iteration ends the loop with probability ≥ 1/2 (the model's fuel of 256 iterations — reported as
+a fault when exhausted — fails with probability ≤ `2^-256` per draw under a uniform generator). -/
+theorem bounded_draw_accepts_at_least_half (range : Nat) (h0 : 0 < range) (h1 : range < 4294967296) :
+    2147483648 ≤ ((Finset.range 4294967296).filter (fun v => (Xoro.accept range v).isSome)).card := by
+  rw [(Xoro.accept_total range h0 h1).1]; exact (Xoro.accept_total range h0 h1).2
+
+/-- `gen_range` returns the result of the first accepted draw of the generator's `u32` stream and
+leaves the generator just after it (the loop consumes nothing else). -/
+theorem genRange_first_accepted (range fuel : Nat) (g : Xoro) :
+    Xoro.genRange range (fuel + 1) g =
+      (match Xoro.accept range g.next32.1 with
+       | some k => some (k, g.next32.2)
+       | none => Xoro.genRange range fuel g.next32.2) := by
+  rw [Xoro.genRange]
+  rfl
+
+/-- Concrete instances (kernel evaluation): range 3 has 30 leading zeros, zone `3·2^30 − 1`; draws at
+the window edges. -/
+example : Xoro.lz32 3 = 30 ∧ Xoro.zone 3 = 3221225471 ∧
+    Xoro.accept 3 0 = some 0 ∧ Xoro.accept 3 1073741823 = some 0 ∧ Xoro.accept 3 1073741824 = none ∧
+    Xoro.accept 3 1431655766 = some 1 ∧ Xoro.accept 3 4294967295 = none := by decide
 
 end Bourse.Props.C15
